@@ -535,6 +535,11 @@ def value_shapes(tier):
     add('C07 value reference to named number value', ['Tt ::= INTEGER { big(%d) }' % PH(0), 'w Tt ::= big'], 'v', 'Tt', 'w', I(0), 1)
     add('C07 value reference enumerated', ['Ee ::= ENUMERATED { one, two }', 'w Ee ::= two'], 'v', 'Ee', 'w', V('enum', name='two'), 0)
     add('C07 value reference boolean chain', ['c BOOLEAN ::= TRUE', 'b BOOLEAN ::= c'], 'v', 'BOOLEAN', 'b', V('bool', b=True), 0)
+    # time values (GeneralizedTime / UTCTime are written as character strings): the string parsed at run time is the source string
+    for tt, tv in (('GeneralizedTime', '20240229120000Z'), ('GeneralizedTime', '20240229120000.5+0100'), ('UTCTime', '240229120000Z'), ('UTCTime', '2402291200-0500')):
+        add(f"C07 value {tt} {tv}", [], 'v', tt, f'"{tv}"', V('str', s=tv), 0)
+        add(f"C07 default {tt} {tv}", [f'Ss ::= SEQUENCE {{ x {tt} DEFAULT "{tv}" }}'], None, None, None, V('str', s=tv), 0, dflt='ss_x_default')
+        add(f"C07 value {tt} {tv} via type ref", [f'Tt ::= {tt}'], 'v', 'Tt', f'"{tv}"', V('str', s=tv), 0)
     add('C07 value reference string', ['w UTF8String ::= "a""b"'], 'v', 'UTF8String', 'w', V('str', s='a"b'), 0)
     add('C07 value reference bits', ["w BIT STRING ::= '1011'B"], 'v', 'BIT STRING', 'w', V('bits', bits=[True, False, True, True]), 0)
     add('C07 value reference octets', ["w OCTET STRING ::= 'A5FF'H"], 'v', 'OCTET STRING', 'w', V('bytes', by=[0xA5, 0xFF]), 0)
@@ -611,6 +616,15 @@ class Evaluator:
         changed = True
         while changed:
             changed = False
+            # `"..." . parse :: < T > ()` (time values are parsed from their source string at run time): the value is the string
+            if len(toks) >= 6 and isinstance(toks[-1], TGroup) and toks[-1].delim == '(' and not toks[-1].ts.toks and is_p(toks[-2], '>'):
+                for k_ in range(len(toks) - 3, 0, -1):
+                    if is_id(toks[k_], 'parse') and is_p(toks[k_ - 1], '.') and is_p(toks[k_ + 1], ':') and is_p(toks[k_ + 3], '<'):
+                        toks = toks[:k_ - 1]
+                        changed = True
+                        break
+                    if not (isinstance(toks[k_], TIdent) or is_p(toks[k_], ':') or is_p(toks[k_], '<') or is_p(toks[k_], '_')):
+                        break
             for suffix in (['.', 'to_owned', '()'], ['.', 'unwrap', '()'], ['.', 'into', '()'], ['.', 'collect', '()'], ['.', 'into_iter', '()'], ['.', 'clone', '()'], ['.', 'to_string', '()'], ['.', 'to_vec', '()']):
                 if len(toks) >= 3 and is_p(toks[-3], '.') and is_id(toks[-2], suffix[1]) and isinstance(toks[-1], TGroup) and toks[-1].delim == '(' and not toks[-1].ts.toks:
                     toks = toks[:-3]
